@@ -188,6 +188,28 @@ func selftest() int {
 			delete(o.Post, id)
 			return true
 		}},
+		{"hide a live task from a view", func(o *Obs) bool {
+			for id, it := range o.Post {
+				if m, ok := it.(map[string]any); ok && m["kind"] == "task" {
+					o.Hidden = append(o.Hidden, id+":human")
+					return true
+				}
+			}
+			return false
+		}},
+		{"keep a pruned id as a dependency", func(o *Obs) bool {
+			if len(o.Gone) == 0 {
+				return false
+			}
+			for _, it := range o.Post {
+				if m, ok := it.(map[string]any); ok && m["kind"] == "task" {
+					d, _ := m["deps"].([]any)
+					m["deps"] = append(d, o.Gone[0])
+					return true
+				}
+			}
+			return false
+		}},
 		{"bump updated timestamp", func(o *Obs) bool {
 			_, it := anyItem(o.Post)
 			if it == nil {
